@@ -52,6 +52,19 @@ func (e *Engine) patternIntrinsic(fn *ssa.Function, name string) intrinsicFn {
 		}
 		return nil
 	}
+	// generated protobuf message methods that depend on the protobuf runtime
+	if recv := fn.Signature.Recv(); recv != nil {
+		if st, ok := msgStruct(recv.Type()); ok && isProtoStruct(st) {
+			if _, isPtr := recv.Type().Underlying().(*types.Pointer); isPtr {
+				switch fn.Name() {
+				case "Reset":
+					return protoResetIntrinsic
+				case "String":
+					return func(fr *frame, a []value) value { return Str{s: "<" + typeString(recv.Type()) + ">"} }
+				}
+			}
+		}
+	}
 	// generated protobuf registration code
 	if fn.Pkg != nil && strings.HasPrefix(fn.Pkg.Pkg.Path(), modPath) {
 		if strings.HasPrefix(fn.Name(), "file_") && strings.HasSuffix(fn.Name(), "_init") {
@@ -314,6 +327,7 @@ func makeIntrinsics() map[string]intrinsicFn {
 	addFmtIntrinsics(m)
 	addReflectIntrinsics(m)
 	addLibIntrinsics(m)
+	addProtoIntrinsics(m)
 	return m
 }
 
@@ -323,11 +337,14 @@ func (p *Path) fakeMethod(recv iface, meth *types.Func) value {
 	if _, ok := recv.v.(rtype); ok {
 		return rtypeMethod(meth.Name())
 	}
+	if recv.t == fakeCodecType {
+		return codecMethod(meth.Name())
+	}
 	return nil
 }
 
 func isFakeType(t types.Type) bool {
-	return t == fakeRtypeType
+	return t == fakeRtypeType || t == fakeCodecType
 }
 
 var fakeRtypeType = types.NewNamed(types.NewTypeName(token.NoPos, nil, "gosym.rtype", nil), types.NewStruct(nil, nil), nil)
